@@ -45,7 +45,13 @@ pub fn run_case<G: AffineRepr>(run: u64, case: &Case, st: &mut Stats) {
     for cap_p in caps_p {
         st.eval();
         st.fault("F12-capacity");
-        let bp = BulletproofGens::<G>::new(cap_p, case.parties);
+        // half of the stores reach their capacity through a history that ends
+        // with a smaller (no-op) request: the usable capacity must not shrink
+        let mut bp = BulletproofGens::<G>::new(cap_p, case.parties);
+        if cap_p % 2 == 1 {
+            bp.increase_capacity(cap_p / 2);
+            st.probe("store-with-later-smaller-request");
+        }
         let out = run_prover::<G>(&stmt, &bp, &ProverCfg { ext_seed: 4242, ext_mode: RngMode::Normal, record: false });
         st.steps += out.shared.borrow().steps as u64 + 1;
         let short = cap_p < need;
@@ -102,7 +108,10 @@ pub fn run_case<G: AffineRepr>(run: u64, case: &Case, st: &mut Stats) {
     for cap_v in caps_v {
         st.eval();
         st.fault("F12-capacity");
-        let bp = BulletproofGens::<G>::new(cap_v, case.parties);
+        let mut bp = BulletproofGens::<G>::new(cap_v, case.parties);
+        if cap_v % 2 == 0 && cap_v > 0 {
+            bp.increase_capacity(cap_v - 1);
+        }
         let short = cap_v < need;
         // verify
         let v = run_verifier::<G>(&stmt, &reference_comm, &proof, &bp, false);
